@@ -276,3 +276,58 @@ pub(crate) fn run<'tcx>(
 
     (files, errors)
 }
+
+/// Verification hooks (add-only, compiled only with `--cfg rust_diplomat_diplomat_verif`).
+#[cfg(rust_diplomat_diplomat_verif)]
+pub(crate) mod verif_hooks {
+    use super::layout;
+    use diplomat_core::hir;
+    use std::collections::BTreeMap;
+
+    /// One row per field: `(offset, padding_count, padding_field_width, scalars)` where
+    /// `scalars` is `-1` for `ScalarCount::Memory`, `0` for `Zst`, else the count.
+    pub struct JsLayout {
+        pub fields: Vec<(usize, usize, usize, i64)>,
+        pub size: usize,
+        pub align: usize,
+        pub scalars: i64,
+    }
+
+    fn sc(s: layout::ScalarCount) -> i64 {
+        match s {
+            layout::ScalarCount::Zst => 0,
+            layout::ScalarCount::Scalars(n) => n as i64,
+            layout::ScalarCount::Memory => -1,
+        }
+    }
+
+    /// `layout::struct_field_info` for every struct and out-struct of a lowered context.
+    pub fn js_struct_layouts(tcx: &hir::TypeContext) -> BTreeMap<String, JsLayout> {
+        let mut out = BTreeMap::new();
+        for (_id, def) in tcx.all_types() {
+            let info = match def {
+                hir::TypeDef::Struct(s) => {
+                    layout::struct_field_info(s.fields.iter().map(|f| &f.ty), tcx)
+                }
+                hir::TypeDef::OutStruct(s) => {
+                    layout::struct_field_info(s.fields.iter().map(|f| &f.ty), tcx)
+                }
+                _ => continue,
+            };
+            out.insert(
+                def.name().to_string(),
+                JsLayout {
+                    fields: info
+                        .fields
+                        .iter()
+                        .map(|f| (f.offset, f.padding_count, f.padding_field_width, sc(f.scalar_count)))
+                        .collect(),
+                    size: info.struct_layout.size(),
+                    align: info.struct_layout.align(),
+                    scalars: sc(info.scalar_count),
+                },
+            );
+        }
+        out
+    }
+}
